@@ -47,6 +47,16 @@ class EnumClass:
 TYPES = {'str': str, 'int': int, 'bytes': bytes, 'list': list, 'tuple': tuple, 'dict': dict, 'bool': bool, 'float': float, 'bytearray': bytearray, 'set': set, 'frozenset': frozenset}
 
 
+class ClassRef:
+    """a class of the analysed module that is not an enumeration: usable in isinstance(x, Cls) against the models (a Version is a ProtocolVersion,
+    a model object built by new_object is an instance of its class)"""
+    def __init__(self, name):
+        self.name = name
+
+    def __repr__(self):
+        return '<class %s>' % self.name
+
+
 class MemberProbe:
     """stands for 'any value': the first `probe in <container>` test reached raises ProbeHit with the container"""
     def __repr__(self):
@@ -193,8 +203,9 @@ class Folder:
         elif isinstance(d, ast.ClassDef):
             bases = {dotted(b) for b in d.bases}
             if not bases & {'enum.Enum', 'Enum', 'OrderedEnum', 'enum.IntEnum', 'IntEnum'}:
-                raise Unfoldable('class %s' % name)
-            v = EnumClass(name)
+                v = ClassRef(name)               # only good for isinstance tests against the models
+            else:
+                v = EnumClass(name)
         else:
             self._resolving.add(name)
             try:
@@ -538,6 +549,15 @@ class Folder:
                 for k_ in cs_:
                     if isinstance(k_, EnumClass):
                         res_ = res_ or (isinstance(v_, Enum) and v_.cls == k_.name)
+                    elif isinstance(k_, ClassRef):
+                        if isinstance(v_, Version):
+                            res_ = res_ or k_.name == 'ProtocolVersion'
+                        elif isinstance(v_, dict) and '__class__' in v_:
+                            res_ = res_ or v_['__class__'] == k_.name
+                        elif isinstance(v_, (Opaque, AbsNum, SymInt, AbsStr)):
+                            raise Unfoldable('isinstance of an abstract value')
+                        else:
+                            res_ = res_ or False
                     elif isinstance(k_, type):
                         if isinstance(v_, (Opaque, AbsNum, SymInt, AbsStr)):
                             raise Unfoldable('isinstance of an abstract value')
